@@ -317,24 +317,34 @@ class VmCont(TlbScheme):
     def deserialize(cls, cell_slice: Slice) -> "VmCont":
         tag = cell_slice.preload_bits(6).to01()
         if tag[:2] == '00':
+            cell_slice.skip_bits(2)  # the tag itself
             return cls('vmc_std', cdata=VmControlData.deserialize(cell_slice), code=VmCellSlice.deserialize(cell_slice))
         elif tag[:2] == '01':
+            cell_slice.skip_bits(2)  # the tag itself
             return cls('vmc_envelope', cdata=VmControlData.deserialize(cell_slice), next=cls.deserialize(cell_slice.load_ref().begin_parse()))
         elif tag[:4] == '1000':
+            cell_slice.skip_bits(4)  # the tag itself
             return cls('vmc_quit', exit_code=cell_slice.load_int(32))
         elif tag[:4] == '1001':
+            cell_slice.skip_bits(4)  # the tag itself
             return cls('vmc_quit_exc')
         elif tag[:5] == '10100':
+            cell_slice.skip_bits(5)  # the tag itself
             return cls('vmc_repeat', count=cell_slice.load_uint(63), body=cls.deserialize(cell_slice.load_ref().begin_parse()), after=cls.deserialize(cell_slice.load_ref().begin_parse()))
         elif tag[:6] == '110000':
+            cell_slice.skip_bits(6)  # the tag itself
             return cls('vmc_until', body=cls.deserialize(cell_slice.load_ref().begin_parse()), after=cls.deserialize(cell_slice.load_ref().begin_parse()))
         elif tag[:6] == '110001':
+            cell_slice.skip_bits(6)  # the tag itself
             return cls('vmc_again', body=cls.deserialize(cell_slice.load_ref().begin_parse()))
         elif tag[:6] == '110010':
+            cell_slice.skip_bits(6)  # the tag itself
             return cls('vmc_while_cond', cond=cls.deserialize(cell_slice.load_ref().begin_parse()), body=cls.deserialize(cell_slice.load_ref().begin_parse()), after=cls.deserialize(cell_slice.load_ref().begin_parse()))
         elif tag[:6] == '110011':
+            cell_slice.skip_bits(6)  # the tag itself
             return cls('vmc_while_body', cond=cls.deserialize(cell_slice.load_ref().begin_parse()), body=cls.deserialize(cell_slice.load_ref().begin_parse()), after=cls.deserialize(cell_slice.load_ref().begin_parse()))
         elif tag[:4] == '1111':
+            cell_slice.skip_bits(4)  # the tag itself
             return cls('vmc_pushint', value=cell_slice.load_int(32), next=cls.deserialize(cell_slice.load_ref().begin_parse()))
 
 
